@@ -398,7 +398,29 @@ func (g *gen) multihash() mh.Multihash {
 
 var codecs = []uint64{cid.Raw, cid.DagProtobuf, cid.DagCBOR, cid.Libp2pKey, cid.DagJSON}
 
+// a CIDv1 whose text in the given base has exactly the wanted length (identity multihash of a
+// fitting digest length), to sit on both sides of the 63-character limit in every base
+func (g *gen) cidOfTextLen(b mbase.Encoding, want int) (string, bool) {
+	codec := codecs[g.n(len(codecs))]
+	for n := 20; n <= 48; n++ {
+		for try := 0; try < 4; try++ {
+			t, err := cid.NewCidV1(codec, mkMh(mh.IDENTITY, g.bytes(n))).StringOfBase(b)
+			if err == nil && len(t) == want {
+				return t, true
+			}
+		}
+	}
+	return "", false
+}
+
 func (g *gen) cidText() (string, string) {
+	if g.chance(7) {
+		b := []mbase.Encoding{mbase.Base16, mbase.Base58BTC, mbase.Base36, mbase.Base64url, mbase.Base32}[g.n(5)]
+		want := 61 + g.n(5)
+		if t, ok := g.cidOfTextLen(b, want); ok {
+			return t, fmt.Sprintf("cidv1-len%d-base%c", want, rune(b))
+		}
+	}
 	m := g.multihash()
 	if g.chance(6) {
 		m = mkMh(mh.SHA2_256, g.bytes(32))
@@ -586,8 +608,8 @@ func (g *gen) scenario() scenario {
 	sc := scenario{cfg: cfg, recs: map[string]bool{}}
 	gw := cfg.Gws[g.n(len(cfg.Gws))]
 	ns := g.pick("ipfs", "ipfs", "ipns", "ipns", "ipns", "p2p", "ipld")
-	if g.chance(25) {
-		ns = g.pick("api", "ipfs2", "")
+	if g.chance(10) {
+		ns = g.pick("api", "ipfs2", "ipfsx", "ipn", "")
 	}
 	sc.ns = []string{ns}
 	// the root identifier
@@ -756,7 +778,40 @@ func corpus() []scenario {
 	const v0 = "QmbCMUZw6JFeZ7Wp9jkzbye3Fzp2GGcPgC3nmeUjfVF87n"
 	const ed = "12D3KooWFB51PRY9BxcXSH6khFXw1BZeszeLDy7C8GciskqCTZn5"
 	const long512 = "bafkrgqe3ohjcjplc6n4f3fwunlj6upltggn7xqujbsvnvyw764srszz4u4rshq6ztos4chl4plgg4ffyyxnayrtdi5oc4xb2332g645433aeg"
-	return []scenario{
+	// CID texts exactly at / just above the 63-character limit, found deterministically
+	textOfLen := func(codec uint64, b mbase.Encoding, want int) string {
+		for n := 10; n <= 60; n++ {
+			for fill := 1; fill < 40; fill++ {
+				d := make([]byte, n)
+				for i := range d {
+					d[i] = byte(fill * (i + 1))
+				}
+				if t, err := cid.NewCidV1(codec, mkMh(mh.IDENTITY, d)).StringOfBase(b); err == nil && len(t) == want {
+					return t
+				}
+			}
+		}
+		panic(fmt.Sprintf("no CID text of length %d in base %c", want, rune(b)))
+	}
+	var boundary []scenario
+	for _, bl := range []struct {
+		b    mbase.Encoding
+		want int
+		ns   string
+	}{{mbase.Base16, 63, "ipfs"}, {mbase.Base16, 65, "ipfs"}, {mbase.Base58BTC, 63, "ipfs"}, {mbase.Base58BTC, 64, "ipfs"},
+		{mbase.Base64url, 63, "ipfs"}, {mbase.Base36, 63, "ipfs"}, {mbase.Base36, 64, "ipfs"}, {mbase.Base36, 63, "ipns"}, {mbase.Base36, 64, "ipns"},
+		{mbase.Base32, 62, "ipfs"}, {mbase.Base32, 64, "ipfs"}} {
+		codec := uint64(cid.Raw)
+		if bl.ns == "ipns" {
+			codec = cid.Libp2pKey
+		}
+		t := textOfLen(codec, bl.b, bl.want)
+		// as a subdomain label and as a path root
+		boundary = append(boundary,
+			mk(sub, nil, t+"."+bl.ns+".dweb.link", "/x", "", "", false, &intent{Gw: "dweb.link", Ns: bl.ns, Root: t, Rest: "x"}, bl.ns),
+			mk(sub, nil, "dweb.link", "/"+bl.ns+"/"+t+"/x", "", "", false, &intent{Gw: "dweb.link", Ns: bl.ns, Root: t, Rest: "x"}, bl.ns))
+	}
+	return append([]scenario{
 		// the fragment of the request URL (finding C32-1 when it is dropped)
 		mk(sub, nil, "dweb.link", "/ipfs/bafkqaaa/a", "x=1", "top", false, &intent{Gw: "dweb.link", Ns: "ipfs", Root: "bafkqaaa", Rest: "a", Query: "x=1", Frag: "top"}, "ipfs"),
 		mk(sub, nil, "dweb.link", "/ipfs/"+v0+"/this is ? a file.png", "", "", false, &intent{Gw: "dweb.link", Ns: "ipfs", Root: v0, Rest: "this is ? a file.png"}, "ipfs"),
@@ -773,7 +828,7 @@ func corpus() []scenario {
 		mk(pathgw, nil, "ipfs.io", "/ipfs/"+v0+"/x", "", "", false, &intent{Gw: "ipfs.io", Ns: "ipfs", Root: v0, Rest: "x"}, "ipfs"),
 		mk(pathgw, []string{"docs.ipfs.tech"}, "docs.ipfs.tech", "/install/", "", "", false, &intent{Ns: "ipns", Root: "docs.ipfs.tech", Rest: "install/"}, "ipns"),
 		mk(sub, nil, "bafybeickencdqw37dpz3ha36ewrh4undfjt2do52chtcky4rxkj447qhdm.ipns.dweb.link", "/", "", "", false, &intent{Gw: "dweb.link", Ns: "ipns", Root: "bafybeickencdqw37dpz3ha36ewrh4undfjt2do52chtcky4rxkj447qhdm"}, "ipns"),
-	}
+	}, boundary...)
 }
 
 func TestC32(t *testing.T) {
